@@ -219,6 +219,20 @@ fn history_block(b: u64) -> BlockReport {
     judge(1_000_000, (base_s + 1) * 1_000_000 + 5, &mut rep);
     judge(1_000_000, 1_700_000_000_123_999, &mut rep);
     judge(1000, 1_699_999_999_999, &mut rep);
+    // two consecutive calls a little more than one second apart inside one power-of-two block of the unit (2^20 us /
+    // 2^10 ms hold one second and a bit: some blocks contain two second boundaries)
+    {
+        let bus = ((base_s * 1_000_000) >> 20) << 20;
+        for (lead, step) in [(5_000u64, 1_020_000u64), (1, 1_048_570), (20_000, 1_000_001), (900, 1_030_000)] {
+            judge(1_000_000, bus + lead, &mut rep);
+            judge(1_000_000, bus + lead + step, &mut rep);
+        }
+        let bms = ((base_s * 1000) >> 10) << 10;
+        for (lead, step) in [(3u64, 1_010u64), (0, 1_023), (20, 1_001)] {
+            judge(1000, bms + lead, &mut rep);
+            judge(1000, bms + lead + step, &mut rep);
+        }
+    }
     // several independent clocks interleaved on one thread: clock A advances in sub-second steps across second
     // boundaries (forward, then backward) while unrelated instants B and C are converted between its steps
     let far = crate::util::splitmix64(0xC17F ^ b) % ((1u64 << 32) - 8) + 4;
@@ -435,6 +449,9 @@ fn handover_block(_b: u64) -> BlockReport {
     rep
 }
 
+/// the clock of the harness logger (`oracle::NullLogger` converts it on every record): also the first instant of the run
+const ANCHOR_MS: u64 = 1_700_000_000_123;
+
 pub fn run(run: &Run) {
     run.rule(
         "cases = (constructor, u64 input with input/unit-per-second < 2^32): enumerated boundaries (0, unit multiples +-1, powers of two +-1, \
@@ -444,7 +461,23 @@ pub fn run(run: &Run) {
     );
     run.assume("oracle: seconds*10^6 + microseconds == input expressed in microseconds, computed in u128; overflow checks are on in the build");
     run.regressions(&replay);
+    // the first instants this process converts (an implementation may anchor on them), then — in the boundary section —
+    // the instants a power of two of the unit later / earlier, 0..130 short of it
+    let _ = check(&Case { unit: 1000, x: ANCHOR_MS });
+    let _ = check(&Case { unit: 1_000_000, x: ANCHOR_MS * 1000 + 456 });
     let mut all = vec![];
+    for k in [10u32, 16, 20, 24, 30, 31, 32, 33, 40] {
+        for d in 0..=130u64 {
+            for (unit, a) in [(1000u64, ANCHOR_MS), (1_000_000, ANCHOR_MS * 1000 + 456)] {
+                all.push(Case { unit, x: a + (1u64 << k) - d });
+                all.push(Case { unit, x: a + (1u64 << k) + d });
+                if a > (1u64 << k) + d {
+                    all.push(Case { unit, x: a - (1u64 << k) - d });
+                }
+            }
+        }
+    }
+    all.retain(|c| (c.x / c.unit) >> 32 == 0);
     for unit in [1000u64, 1_000_000] {
         for x in boundaries(unit) {
             all.push(Case { unit, x });
